@@ -43,7 +43,8 @@ class Proof:
         self.st.frame.vars[name] = val
         return val
 
-    def use(self, name, qualname, **args):
+    def use(self_, name, qualname, **args):
+        self = self_
         """facts of a verified contract instantiated at args (see Verifier.use_contract); they are recorded under
         name[0], name[1], ... and name (conjunction)"""
         proved = self.v.use_contract(self.st, qualname, **args)
